@@ -108,9 +108,15 @@ def _long_header_line(rng):
 BOUNDARIES = [b'x', b'=_bnd_1', b'----=_NextPart_000', b'a' * 70, b'b' * 69, b'q.r:s+t']
 
 
+BAD_BOUNDARIES = [(b'', True), (b'a' * 71, False), (b'a' * 71, True), (b'ab ', True), (b'a{b', False), (b'a b', True), (b'a\x80', False),
+                  (b'', False), (b"'()_=?+,-./:", True)]
+
+
 def _multipart(rng, depth=0):
     b = rng.choice(BOUNDARIES)
     quoted = rng.random() < 0.5
+    if rng.random() < 0.08:        # boundary definitions Qremote refuses (empty, too long, trailing blank, bad character) or barely accepts
+        b, quoted = rng.choice(BAD_BOUNDARIES)
     ct = b'Content-Type: multipart/' + rng.choice([b'mixed', b'alternative', b'related']) + b';' + rng.choice([b' ', b'\r\n\t', b''])
     ct += b'boundary=' + (b'"' + b + b'"' if quoted else b)
     if rng.random() < 0.2:
@@ -197,7 +203,7 @@ def gen_message(rng):
 
 
 def gen_cases(op, rng, tier):
-    n = 2500 if tier == 'quick' else 60000
+    n = 2000 if tier == 'quick' else 60000
     out = []
     for _ in range(n):
         m = gen_message(rng)
